@@ -6,7 +6,7 @@ import LitexModel.Stream.NumG
   the C04 driver).  Port orders: `Num.lean` (identity-typed elements) and `NumG.lean` (all others).
 
     pipevalid | pipeready | wire | buffer_vr | syncfifo d | syncfifo_buffered d
-    up r nb pw rev vtc | strideup r pw rev gated w… | down r nb pw rev vtc | stridedown r pw rev w…
+    up r nb pw rev vtc | strideup r pw rev w… | down r nb pw rev vtc | stridedown r pw rev w…
     gearbox i o msb | gate srd | shifter dw | delay n | cast revFrom revTo nf w… v… | bufferized_up r nb rev
     mux n | demux n
   Booleans are 0/1.
@@ -28,8 +28,7 @@ def openMachine (args : List String) (hin hout : IO.FS.Stream) : Option (IO Bool
     | some ps =>
       match name, ps with
       | "up", [r, nb, pw, rev, vtc] => some (serve (numUp r nb pw (n2b rev) (n2b vtc)) hin hout)
-      | "strideup", r :: pw :: rev :: 0 :: ws => some (serve (numStrideUp r pw (n2b rev) ws) hin hout)
-      | "strideup", r :: pw :: rev :: 1 :: ws => some (serve (numStrideUpGated r pw (n2b rev) ws) hin hout)
+      | "strideup", r :: pw :: rev :: ws => some (serve (numStrideUp r pw (n2b rev) ws) hin hout)
       | "down", [r, nb, pw, rev, vtc] => some (serve (numDown r nb pw (n2b rev) (n2b vtc)) hin hout)
       | "stridedown", r :: pw :: rev :: ws => some (serve (numStrideDown r pw (n2b rev) ws) hin hout)
       | "gearbox", [i, o, msb] => some (serve (numGearbox i o (n2b msb)) hin hout)
